@@ -717,3 +717,223 @@ Proof.
   destruct ((Z.min pcols (W - vx t) <=? 0) || (rows <=? 0)) eqn:Ez; [cbn [fst]; apply Inv_mkw; exact IA|].
   apply print_inv; [exact IA|lia|lia|lia].
 Qed.
+
+(* ------------------------------------------------------------------ every operation keeps the invariant *)
+Definition op_ok (o : op) : Prop :=
+  match o with
+  | OMoveAbs col row => arg_ok col /\ arg_ok row
+  | OScrollUp n | OScrollDown n => 0 <= n
+  | OSetMargins t b => 0 <= t /\ 0 <= b
+  | OWrite bs | OWriteCmd bs => vt_plain bs = true
+  | OPrintPlaceholder a => pos_ok a
+  | OSendPut g _ _ _ _ _ => vt_null g = true
+  | _ => True
+  end.
+
+Lemma step_inv W H sc w o : Inv W H w -> op_ok o -> Inv W H (fst (step TS vt_feed (C W H sc) w o)).
+Proof.
+  intros (t & tr & mf & out & -> & I) Hok. pose proof I as (Hwf & HW & HH & Hc & Hf).
+  destruct o as [r d l u|col row| |n|n|top bot|bs|bs| | |a| | |g image placement cols rows dnm]; cbn [step fst op_ok] in *.
+  - (* move_cursor *)
+    unfold move_cursor.
+    destruct u as [u|]; [destruct d as [d|]; [cbn [fst]; apply Inv_mkw; exact I|]|];
+    (destruct l as [l|]; [destruct r as [r|]; [cbn [fst]; apply Inv_mkw; exact I|]|]);
+    cbn [fst];
+    match goal with |- Inv _ _ (move_core _ _ _ _ ?vd ?vr) =>
+      destruct (move_core_eq W H sc t tr mf out vd vr) as [out' E]; rewrite E; apply Inv_mkw; apply move_sound; exact I end.
+  - destruct Hok as [Hcol Hrow]. destruct (abs_eq W H sc t tr mf out col row Hcol Hrow) as [out' E]. rewrite E.
+    apply Inv_mkw. apply abs_sound. exact I.
+  - apply reset_inv. exact I.
+  - unfold scroll_up. rewrite (wr_Eff _ _ _ _ _ _ (Eff_su n Hok)). unfold set_tr. cbn [mkw w_term w_in w_out w_tr w_mflag].
+    apply (Inv_mkw W H t None mf). eapply InvT_forget. exact I.
+  - unfold scroll_down. rewrite (wr_Eff _ _ _ _ _ _ (Eff_sd n Hok)). unfold set_tr. cbn [mkw w_term w_in w_out w_tr w_mflag].
+    apply (Inv_mkw W H t None mf). eapply InvT_forget. exact I.
+  - (* set_margins *)
+    destruct Hok as [Ht Hb]. unfold set_margins. rewrite (wr_Eff _ _ _ _ _ _ (Eff_decstbm top bot Ht Hb)).
+    change (fx_marg (c_fix (C W H sc))) with true. cbv iota. unfold set_tr, set_mflag. cbn [mkw w_term w_in w_out w_tr w_mflag].
+    apply (Inv_mkw W H (vt_decstbm t (top + 1) (bot + 1)) None true).
+    destruct (decstbm_wf t (top + 1) (bot + 1) Hwf ltac:(lia) ltac:(lia)) as (D1 & (D2 & D3)).
+    split; [exact D1|]. split; [congruence|]. split; [congruence|]. split; [intros p Hp; discriminate|intros Hm; discriminate].
+  - destruct (wr_Ben bs t tr mf out (Ben_plain bs Hok) Hwf) as (t' & E & G). rewrite E. unfold set_tr.
+    cbn [mkw w_term w_in w_out w_tr w_mflag]. apply (Inv_mkw W H t' None mf). eapply InvT_good; [exact I|exact G].
+  - destruct (wr_Ben bs t tr mf out (Ben_plain bs Hok) Hwf) as (t' & E & G). rewrite E. unfold set_tr.
+    cbn [mkw w_term w_in w_out w_tr w_mflag]. apply (Inv_mkw W H t' None mf). eapply InvT_good; [exact I|exact G].
+  - rewrite (wr_Eff _ _ _ _ _ _ Eff_clear_line). apply Inv_mkw. exact I.
+  - rewrite (wr_Eff _ _ _ _ _ _ Eff_clear_screen). apply Inv_mkw. exact I.
+  - (* print_placeholder *)
+    destruct (pp_cases W H sc t tr mf out a Hwf Hok) as [[Hr Hw]|[Hr Hw]].
+    + rewrite Hw. apply Inv_mkw. exact I.
+    + destruct Hw as (lines & t' & _ & _ & _ & G & ->). apply Inv_mkw. eapply InvT_good; [exact I|exact G].
+  - rewrite gcp_eq by exact Hwf. cbn [fst]. apply Inv_mkw.
+    split; [exact Hwf|]. split; [exact HW|]. split; [exact HH|]. split; [intros p [= <-]; reflexivity|exact Hf].
+  - destruct (gcpt_eq t tr mf out Hwf Hc) as [out' E]. rewrite E. cbn [fst]. apply Inv_mkw.
+    split; [exact Hwf|]. split; [exact HW|]. split; [exact HH|]. split; [intros p [= <-]; reflexivity|exact Hf].
+  - rewrite (wr_Eff _ _ _ _ _ _ (Eff_null g Hok)). apply ppfp_inv. exact I.
+Qed.
+
+Lemma run_inv W H sc ops : Forall op_ok ops -> forall w, Inv W H w -> Inv W H (run TS vt_feed (C W H sc) w ops).
+Proof.
+  induction 1 as [|o r Ho _ IH]; intros w I; cbn [run]; [exact I|]. apply IH. apply step_inv; assumption.
+Qed.
+
+Lemma start_inv W H : 1 <= W -> 1 <= H -> Inv W H (world0 (vt_start W H)).
+Proof.
+  intros HW HH. exists (vt_blank W H), None, false, []. split; [reflexivity|].
+  unfold InvT, wf, full, vt_blank. fields. repeat split; try lia. intros p Hp; discriminate.
+Qed.
+
+(* the statement of C16, for the tracker with all repairs *)
+Theorem tracked_sound_fixed W H sc ops : 1 <= W -> 1 <= H -> Forall op_ok ops ->
+  let w := run TS vt_feed (C W H sc) (world0 (vt_start W H)) ops in
+  fst (w_term w) = PGround /\ w_in w = [] /\
+  forall p, w_tr w = Some p -> vt_cursor (snd (w_term w)) = p.
+Proof.
+  intros HW HH Hok. cbv zeta.
+  destruct (run_inv W H sc ops Hok _ (start_inv W H HW HH)) as (t & tr & mf & out & -> & I).
+  cbn [mkw w_term w_in w_tr fst snd]. split; [reflexivity|]. split; [reflexivity|]. apply I.
+Qed.
+
+Theorem tracked_sound_src W H sc ops : 1 <= W -> 1 <= H -> Forall op_ok ops ->
+  let w := run TS vt_feed (Cfg src_fixes W H sc) (world0 (vt_start W H)) ops in
+  fst (w_term w) = PGround /\ w_in w = [] /\
+  forall p, w_tr w = Some p -> vt_cursor (snd (w_term w)) = p.
+Proof. rewrite src_fixes_all. exact (tracked_sound_fixed W H sc ops). Qed.
+
+(* ------------------------------------------------------------------ the model's terminal has received exactly the
+   bytes written so far (only [wr] touches the terminal and the output log, and it does both) *)
+Definition coh (st0 : TS) (w : world TS) : Prop := fst (vt_feed st0 (w_out w)) = w_term w.
+
+Lemma coh_wr st0 w bs : coh st0 w -> coh st0 (wr TS vt_feed w bs).
+Proof.
+  unfold coh, wr. intros H. destruct (vt_feed (w_term w) bs) as [t' rep] eqn:E. cbn [w_term w_out].
+  rewrite feed_app. destruct (vt_feed st0 (w_out w)) as [s1 r1]. cbn [fst] in H. subst s1. rewrite E. reflexivity.
+Qed.
+Lemma coh_set_tr st0 w tr : coh st0 w -> coh st0 (set_tr TS w tr). Proof. exact (fun H => H). Qed.
+Lemma coh_set_in st0 w i : coh st0 w -> coh st0 (set_in TS w i). Proof. exact (fun H => H). Qed.
+Lemma coh_set_mflag st0 w b : coh st0 w -> coh st0 (set_mflag TS w b). Proof. exact (fun H => H). Qed.
+Lemma coh_set_tracked st0 c w x y : coh st0 w -> coh st0 (set_tracked TS c w x y). Proof. exact (fun H => H). Qed.
+
+Ltac coh_step :=
+  first [ assumption
+        | apply coh_set_tr | apply coh_set_in | apply coh_set_mflag | apply coh_set_tracked | apply coh_wr
+        | match goal with
+          | |- coh _ (fst (if ?c then _ else _)) => destruct c
+          | |- coh _ (if ?c then _ else _) => destruct c
+          | |- coh _ (fst (match ?x with _ => _ end)) => destruct x
+          | |- coh _ (match ?x with _ => _ end) => destruct x
+          | |- coh _ (fst (_, _)) => cbn [fst]
+          end ].
+Ltac coh_auto := cbv zeta; repeat coh_step.
+
+Lemma coh_gcp st0 w : coh st0 w -> coh st0 (fst (get_cursor_position TS vt_feed w)).
+Proof. intros H. unfold get_cursor_position. coh_auto. Qed.
+Lemma coh_gcpt st0 w : coh st0 w -> coh st0 (fst (get_cursor_position_tracked TS vt_feed w)).
+Proof. intros H. unfold get_cursor_position_tracked. destruct (w_tr w) as [[x y]|]; [exact H|apply coh_gcp; exact H]. Qed.
+Lemma coh_move_core st0 c w vd vr : coh st0 w -> coh st0 (move_core TS vt_feed c w vd vr).
+Proof. intros H. unfold move_core. coh_auto. Qed.
+Lemma coh_move_cursor st0 c w r d l u : coh st0 w -> coh st0 (fst (move_cursor TS vt_feed c w r d l u)).
+Proof.
+  intros H. unfold move_cursor. destruct u, d, l, r; cbn [fst]; try exact H; apply coh_move_core; exact H.
+Qed.
+Lemma coh_abs st0 c w col row : coh st0 w -> coh st0 (move_cursor_abs TS vt_feed c w col row).
+Proof. intros H. unfold move_cursor_abs. coh_auto. Qed.
+Lemma coh_reset st0 c w : coh st0 w -> coh st0 (reset TS vt_feed c w).
+Proof. intros H. unfold reset. destruct (c_scroll c); cbv zeta; [apply coh_abs; unfold scroll_up|]; coh_auto. Qed.
+Lemma coh_pp st0 c w a : coh st0 w -> coh st0 (fst (print_placeholder TS vt_feed c w a)).
+Proof. intros H. unfold print_placeholder. coh_auto. Qed.
+Lemma coh_prepare st0 c w cy prows dnm : coh st0 w -> coh st0 (fst (put_prepare TS vt_feed c w cy prows dnm)).
+Proof.
+  intros H. unfold put_prepare. destruct (cH c - cy <? prows); [destruct dnm|]; cbn [fst]; try exact H.
+  cbv zeta. apply coh_move_cursor. apply coh_wr. exact H.
+Qed.
+Lemma coh_finish st0 c w cx cy cols rows dnm : coh st0 w -> coh st0 (put_finish TS vt_feed c w cx cy cols rows dnm).
+Proof.
+  intros H. unfold put_finish. cbv zeta.
+  match goal with |- coh _ (if _ then set_tr _ ?w1 _ else ?w1) => assert (H1 : coh st0 w1) end.
+  { destruct dnm; [apply coh_abs; exact H|]. coh_auto. }
+  coh_auto.
+Qed.
+Lemma coh_print st0 c w image placement cols rows dnm : coh st0 w ->
+  coh st0 (fst (put_print TS vt_feed c w image placement cols rows dnm)).
+Proof.
+  intros H. unfold put_print. pose proof (coh_gcp st0 w H) as H1.
+  destruct (get_cursor_position TS vt_feed w) as [w1 r1]. cbn [fst] in H1.
+  destruct r1; cbn [fst]; try exact H1. cbv zeta.
+  match goal with |- coh _ (fst (match print_placeholder _ _ _ ?w2 ?a with _ => _ end)) =>
+    assert (H2 : coh st0 w2) by coh_auto; pose proof (coh_pp st0 c w2 a H2) as H3;
+    destruct (print_placeholder TS vt_feed c w2 a) as [w3 r3] end.
+  cbn [fst] in H3. destruct r3; cbn [fst]; try exact H3. apply coh_finish. exact H3.
+Qed.
+Lemma coh_ppfp st0 c w image placement pcols prows dnm : coh st0 w ->
+  coh st0 (fst (print_placeholder_for_put TS vt_feed c w image placement pcols prows dnm)).
+Proof.
+  intros H. unfold print_placeholder_for_put. destruct prows, pcols, image; cbn [fst]; try exact H.
+  pose proof (coh_gcpt st0 w H) as H1. destruct (get_cursor_position_tracked TS vt_feed w) as [w1 r1]. cbn [fst] in H1.
+  destruct r1; cbn [fst]; try exact H1. cbv zeta.
+  match goal with |- context [put_prepare _ _ _ ?w ?cy ?pr ?d] =>
+    pose proof (coh_prepare st0 c w cy pr d H1) as H2; destruct (put_prepare TS vt_feed c w cy pr d) as [w2 rows] end.
+  cbn [fst] in H2. match goal with |- coh _ (fst (if ?b then _ else _)) => destruct b end; cbn [fst]; [exact H2|].
+  apply coh_print. exact H2.
+Qed.
+Lemma coh_step_op st0 c w o : coh st0 w -> coh st0 (fst (step TS vt_feed c w o)).
+Proof.
+  intros H. destruct o; cbn [step fst].
+  - apply coh_move_cursor; exact H.
+  - apply coh_abs; exact H.
+  - apply coh_reset; exact H.
+  - unfold scroll_up. coh_auto.
+  - unfold scroll_down. coh_auto.
+  - unfold set_margins. coh_auto.
+  - coh_auto.
+  - coh_auto.
+  - coh_auto.
+  - coh_auto.
+  - apply coh_pp; exact H.
+  - apply coh_gcp; exact H.
+  - apply coh_gcpt; exact H.
+  - apply coh_ppfp. apply coh_wr. exact H.
+Qed.
+Theorem run_coh st0 c ops : forall w, coh st0 w -> coh st0 (run TS vt_feed c w ops).
+Proof. induction ops as [|o r IH]; intros w H; cbn [run]; [exact H|]. apply IH. apply coh_step_op. exact H. Qed.
+Theorem run_feeds_output W H c ops :
+  let w := run TS vt_feed c (world0 (vt_start W H)) ops in fst (vt_feed (vt_start W H) (w_out w)) = w_term w.
+Proof. cbv zeta. apply run_coh. reflexivity. Qed.
+
+(* C16 in terms of bytes: T = the Spec terminal fed, from the blank screen, with everything written *)
+Theorem tracked_sound_bytes W H sc ops : 1 <= W -> 1 <= H -> Forall op_ok ops ->
+  let w := run TS vt_feed (Cfg src_fixes W H sc) (world0 (vt_start W H)) ops in
+  let T := fst (vt_feed (vt_start W H) (w_out w)) in
+  fst T = PGround /\ forall p, w_tr w = Some p -> vt_cursor (snd T) = p.
+Proof.
+  intros HW HH Hok. cbv zeta. rewrite (run_feeds_output W H (Cfg src_fixes W H sc) ops).
+  destruct (tracked_sound_src W H sc ops HW HH Hok) as (A & _ & B). split; assumption.
+Qed.
+
+(* the consumer (clipping of forced placeholders) works with the true cursor *)
+Theorem consumer_sees_cursor W H sc ops : 1 <= W -> 1 <= H -> Forall op_ok ops ->
+  let w := run TS vt_feed (Cfg src_fixes W H sc) (world0 (vt_start W H)) ops in
+  snd (get_cursor_position_tracked TS vt_feed w) = RPos (vx (snd (w_term w))) (vy (snd (w_term w))).
+Proof.
+  intros HW HH Hok. cbv zeta. rewrite src_fixes_all.
+  destruct (run_inv W H sc ops Hok _ (start_inv W H HW HH)) as (t & tr & mf & out & E & I).
+  fold (C W H sc). rewrite E. destruct I as (Hwf & _ & _ & Hc & _).
+  destruct (gcpt_eq t tr mf out Hwf Hc) as [out' E']. rewrite E'. reflexivity.
+Qed.
+
+(* it forgets the position after output whose effect it does not model *)
+Theorem forgets T tfeed c w :
+  (forall bs, w_tr (fst (step T tfeed c w (OWrite bs))) = None) /\
+  (forall bs, w_tr (fst (step T tfeed c w (OWriteCmd bs))) = None) /\
+  (forall n, w_tr (fst (step T tfeed c w (OScrollUp n))) = None) /\
+  (forall n, w_tr (fst (step T tfeed c w (OScrollDown n))) = None) /\
+  (forall a b, w_tr (fst (step T tfeed c w (OSetMargins a b))) = None) /\
+  (forall a, fx_ph (c_fix c) = true -> snd (step T tfeed c w (OPrintPlaceholder a)) = ROk ->
+             w_tr (fst (step T tfeed c w (OPrintPlaceholder a))) = None).
+Proof.
+  repeat split; intros; cbn [step fst snd] in *; try reflexivity.
+  - unfold set_margins. destruct (fx_marg (c_fix c)); reflexivity.
+  - unfold print_placeholder in *. rewrite H in *.
+    destruct (ph_pos a) as [[px py]|]; [destruct (ph_lf a)|]; cbn [fst snd] in *; try discriminate;
+    destruct (negb (ph_valid a)); cbn [fst snd] in *; try discriminate;
+    destruct (ph_lines a); cbn [fst snd] in *; try discriminate; reflexivity.
+Qed.
